@@ -100,7 +100,7 @@ def run(ctx):
         'frames without import path are realised with go:linkname symbols (what assembly / C symbols and unresolvable PCs look like)',
     ]
     ctx.inject('internal/counter', 'internal/verifh/c15')
-    maxlen, strlen, seqlen, pairlen = 14, ctx.pick(6, 7), ctx.pick(3, 4), ctx.pick(2, 2)
+    maxlen, strlen, seqlen, pairlen = 14, ctx.pick(6, 7), ctx.pick(3, 4), ctx.pick(2, 3)
     consts = CONSTS % (maxlen, strlen, seqlen, pairlen, 'FALSE')
 
     # ---- 1. strings: Decode / IsStack ----------------------------------------
